@@ -205,6 +205,7 @@ def run(ctx: vlib.Ctx):
     tyoracle.report_corr(ctx, "TyNtDict.pk_nd/ref_enc_nd vs BasicEncoder.encode under an as_dict dialect", ncases, nbad, nlog, want="enc")
     from harness.props import c01 as _c01
     _c01.tv_part(ctx, "c02_tv", "enc", ctx.budget(40, 300))
+    toml_merge_part(ctx)
 
 
 FORMAT_MIXINS = {"orjson": ("DataClassORJSONMixin", "to_jsonb"), "msgpack": ("DataClassMessagePackMixin", "to_msgpack"),
@@ -253,7 +254,51 @@ def format_mixin_part(ctx):
             fam.dispose()
 
 
+TOML_MERGE_SRC = ("from dataclasses import dataclass\nfrom datetime import date\nfrom typing import List, Optional\nfrom mashumaro.dialect import Dialect\n"
+                  "@dataclass\nclass Item:\n    name: str\n    day: date\n    note: Optional[str] = None\n    tags: Optional[List[int]] = None\n"
+                  "class OnlyAStrategy(Dialect):\n    serialization_strategy = {complex: {'serialize': str, 'deserialize': complex}}\n"
+                  "class OnlyAnOption(Dialect):\n    serialize_by_alias = True\n"
+                  "class Empty(Dialect):\n    pass\n")
+
+
+def _toml_merge_obs(ns, dialect, vsrc):
+    import tomllib
+    from mashumaro.codecs.toml import TOMLEncoder
+    kw = {"default_dialect": ns[dialect]} if dialect else {}
+    try:
+        return "ok:" + gen.py_src(tomllib.loads(TOMLEncoder(ns["Item"], **kw).encode(eval(vsrc, dict(ns)))))
+    except Exception as e:
+        return f"exc:{type(e).__name__}"
+
+
+def toml_merge_part(ctx):
+    """directed, deterministic: the TOML codec with a caller dialect that says nothing about omit_none -- the merged dialect keeps the format
+    dialect's own options (null-valued fields are dropped, date stays native)"""
+    try:
+        import tomllib  # noqa: F401
+        import tomli_w  # noqa: F401
+    except Exception:
+        return
+    ns = gen.build_module(TOML_MERGE_SRC)
+    for vsrc, exp in (("Item('a', date(2020, 1, 2))", {"name": "a", "day": "date(2020, 1, 2)"}),
+                      ("Item('b', date(1999, 12, 31), 'n')", {"name": "b", "day": "date(1999, 12, 31)", "note": "n"}),
+                      ("Item('c', date(2021, 3, 4), None, [1, 2])", {"name": "c", "day": "date(2021, 3, 4)", "tags": [1, 2]})):
+        want = "ok:" + gen.py_src({k: (eval(x, dict(ns)) if isinstance(x, str) and x.startswith("date(") else x) for k, x in exp.items()})
+        for dialect in (None, "Empty", "OnlyAStrategy", "OnlyAnOption"):
+            ctx.count(("toml-merge", dialect, vsrc))
+            obs = _toml_merge_obs(ns, dialect, vsrc)
+            if obs != want:
+                ctx.fail(f"TOMLEncoder(Item, default_dialect={dialect}).encode({vsrc}) gives {obs[:200]}, documented {want[:200]}",
+                         {"entry": "toml_codec_merge", "source": TOML_MERGE_SRC, "dialect": dialect, "input_src": vsrc, "observed": obs, "expected": want},
+                         {"kind": "encode-native", "fmt": "toml"})
+
+
 def replay(rep: dict) -> int:
+    if rep.get("entry") == "toml_codec_merge":
+        ns = gen.build_module(rep["source"])
+        obs = _toml_merge_obs(ns, rep["dialect"], rep["input_src"])
+        print("observed:", obs, "\nexpected:", rep["expected"])
+        return 1 if obs != rep["expected"] else 0
     if rep.get("entry") == "format_mixin_encode":
         ns = gen.build_module(rep["source"])
         v = eval(rep["input_src"], dict(ns))
